@@ -1,6 +1,6 @@
 """C02 — every operation completes exactly once, with its own result."""
 import gen_drv
-from p_drv import DrvProp, K, parse, steps_of
+from p_drv import DrvProp, K, parse, steps_of, waker_counts
 
 
 def oracle(case, out):
@@ -21,6 +21,40 @@ def oracle(case, out):
                 return "final completion of operation %d not stored as its result (event %d)" % (key, idx)
             if nxt[2] != arg:
                 return "operation %d: stored result %d differs from the OS result %d" % (key, nxt[2], arg)
+    # the waiting task is woken: the waker registered LAST before the completion is invoked
+    wc = waker_counts(out)
+    if wc is not None:
+        last_waker = {}
+        times_set = {}
+        for (k, key, arg) in evs:
+            if k == 108:
+                times_set[arg] = times_set.get(arg, 0) + 1
+        for idx, (k, key, arg) in enumerate(evs):
+            if k == 108:
+                last_waker[key] = arg
+            elif k == K["SETRES"] and key in last_waker:
+                w = last_waker.pop(key)
+                if wc[w] == 0:
+                    return ("operation %d completed but the waker registered last for it (waker %d) was never "
+                            "invoked: the waiting task is not woken" % (key, w))
+    # a finished thread-pool job is delivered by the next polls, however often the driver is woken
+    for idx, (k, key, arg) in enumerate(evs):
+        if k != K["B_END"]:
+            continue
+        polls_after = [j for j in range(idx, len(evs)) if evs[j][0] == 107 and evs[j][1] == 1]
+        # the first poll may have begun before the job ended: require two complete polls
+        begins = [j for j in range(idx, len(evs)) if evs[j][0] == 107 and evs[j][1] == 0]
+        ends = [j for j in begins[1:2]]
+        if len(begins) < 2:
+            continue
+        second_end = next((j for j in range(begins[1], len(evs)) if evs[j][0] == 107 and evs[j][1] == 1), None)
+        if second_end is None:
+            continue
+        if any(e[0] == K["DROP_BEGIN"] for e in evs[idx:second_end]):
+            continue
+        if not any(e[0] == K["SETRES"] and e[1] == key for e in evs[:second_end]):
+            return ("thread-pool operation %d finished, the driver was polled twice afterwards, but its result "
+                    "was not delivered" % key)
     written = {}
     for (o, a, b) in steps:
         if o == 4:
@@ -62,12 +96,12 @@ def oracle(case, out):
     # dropped, popped afterwards, on a resource that had unread data before that poll, must be Ready
     # (a poll may return early after delivering thread-pool results: require two polls)
     polls = [i for i, st in enumerate(steps) if st[0] == 5 and st[1] >= 5]
-    last_poll = polls[-2] if len(polls) >= 2 and not any(st[0] in (1, 2, 3, 4, 12, 14, 15) for st in steps[polls[-2]:]) else None
+    last_poll = polls[-2] if len(polls) >= 2 and not any(st[0] in (1, 2, 3, 4, 12, 14, 15, 18) for st in steps[polls[-2]:]) else None
     if last_poll is not None and not any(st[0] == 10 for st in steps) and case[0] == 0:
         slot_of_step, ns = {}, 0
         touched = set()
         for i, (o, a, b) in enumerate(steps):
-            if o in (1, 2, 3, 12, 14):
+            if o in (1, 2, 3, 12, 14, 18):
                 slot_of_step[ns] = i
                 ns += 1
             if o in (7, 8, 9):
